@@ -169,8 +169,10 @@ class ProgressIndicator(object):
         Overwrites a previous message to the output.
         """
         if self._io.supports_ansi():
-            self._io.write("\x0D\x1B[2K")
-            self._io.write(message)
+            # A single write, so that a frame written from the spinner thread can never
+            # end up between the erase sequence and the text of a frame written by the
+            # caller's thread (and vice versa)
+            self._io.write("\x0D\x1B[2K" + message)
         else:
             self._io.write_line(message)
 
